@@ -27,6 +27,7 @@ pub fn ref_queries(digest: Felt, counter: u64, count: u64, e: u32) -> Vec<BigUin
 
 fn gen_case(digest: Felt, counter: u64, count: u64, e: u32) -> (Vec<String>, Option<String>, Vec<Felt>) {
     let bound = b2f(&pow2(e));
+    crate::kit::watch::set_case(format!("generate_queries: domain 2^{}, {} draws, digest {}, counter {}", e, count, fhex(&digest), counter));
     let run = || {
         let mut t = Transcript::new_with_counter(digest, fu(counter));
         let q = generate_queries(&mut t, fu(count), bound);
